@@ -2,7 +2,7 @@
 From Coq Require Import ZArith List Bool Lia.
 From RecordUpdate Require Import RecordUpdate.
 From SimVerif Require Import Model.Base Model.Env Model.FamEnv Model.RM Model.Maint Model.FloorTypes Model.Floor Model.FamFloor.
-From SimVerif Require Import Proofs.FloorSteps Proofs.FloorInv Proofs.FloorSys.
+From SimVerif Require Import Proofs.FloorReach Proofs.FloorSteps Proofs.FloorInv Proofs.FloorSys.
 Import ListNotations.
 Open Scope Z_scope.
 
@@ -57,6 +57,10 @@ Theorem C17_history_reaches_all_parts : forall d b ps,
   item_pop_hist (IBatch b ps) = IBatch (part_pop_hist b) (map part_pop_hist ps).
 Proof. intros. split; reflexivity. Qed.
 
+(** the batcher invariant in every reachable state of every well-formed scenario *)
+Theorem C17_always : forall sc s d x, reach_fl sc s -> aget d (f_devs (fst s)) = Some x -> BatchInv x.
+Proof. intros sc s d x H Hx. exact (proj1 (proj2 (proj2 (proj2 (reach_dev sc s d x H Hx))))). Qed.
+
 Print Assumptions C17_sizes_meaning.
 Print Assumptions C17_sizes_event.
 Print Assumptions C17_sizes_step.
@@ -68,6 +72,7 @@ Print Assumptions C17_sink_counts_parts.
 Print Assumptions C17_count_is_number_of_parts.
 Print Assumptions C17_history_reaches_all_parts.
 
+Print Assumptions C17_always.
 (** Non-vacuity: a batcher of size 2 fed a batch of 3 single parts emits [1;2] and keeps [3] unfinished. *)
 Example C17_nonvacuous :
   let p i := mkPart i 0 8 [] [] in
